@@ -86,13 +86,38 @@ func run() error {
 	if err := bopf.Generate(generated, settings); err != nil {
 		return fmt.Errorf("failed to generate file: %w", err)
 	}
-	out, err := os.Create(*outputFile)
-	if err != nil {
-		return fmt.Errorf("failed to open output file: %w", err)
-	}
-	defer out.Close()
-	if _, err := out.Write(generated.Bytes()); err != nil {
+	if err := replaceFile(*outputFile, generated.Bytes()); err != nil {
 		return fmt.Errorf("failed to write output file: %w", err)
 	}
 	return nil
+}
+
+// replaceFile writes data to a temporary file next to path and renames it over
+// path, so that a failing or interrupted write never leaves path truncated or
+// half-written.
+func replaceFile(path string, data []byte) (err error) {
+	mode := os.FileMode(0o644)
+	if info, statErr := os.Stat(path); statErr == nil {
+		mode = info.Mode().Perm()
+	}
+	tmp, err := os.CreateTemp(filepath.Dir(path), "."+filepath.Base(path)+".tmp*")
+	if err != nil {
+		return err
+	}
+	defer func() {
+		if err != nil {
+			tmp.Close()
+			os.Remove(tmp.Name())
+		}
+	}()
+	if _, err = tmp.Write(data); err != nil {
+		return err
+	}
+	if err = tmp.Chmod(mode); err != nil {
+		return err
+	}
+	if err = tmp.Close(); err != nil {
+		return err
+	}
+	return os.Rename(tmp.Name(), path)
 }
